@@ -39,6 +39,9 @@ func propC17(c *Ctx, r *Report) {
 	r.Clauses = append(r.Clauses, accumClause)
 	c.runAccumLazyInit(r, "accum.lazyinit", func(string) bool { return true })
 	r.floor("accum.lazyinit", 4)
+	r.Clauses = append(r.Clauses, "binding attributes reach every backend (E44): each field of ir.BuiltinBinding / LocationBinding / Interpolation / ResourceBinding is read somewhere in each of the SPIR-V, HLSL, MSL and GLSL backends")
+	c.runBindingFieldRead(r, "binding.fieldread", []string{"spirv", "hlsl", "msl", "glsl"}, nil)
+	r.floor("binding.fieldread", 30)
 	r.Clauses = append(r.Clauses, sameSliceClause)
 	c.runBoundsSameSlice(r, "bounds.sameslice", inPkgs("hlsl", "msl", "glsl", "spirv"))
 	r.floor("bounds.sameslice", 100)
